@@ -77,25 +77,25 @@ CHAIN_PURITY_TEXT = " Around a sample of chains, families of calls that share on
 PURITY_TEXT = " A sample of the calls is additionally repeated on shared objects in other orders - after a burst of unrelated traffic through the library (700 never-seen DIDs, patterns, selectors, commands, failing constructors) - and concurrently, in the plain build and in a -race build: outcomes must not depend on history or on concurrent use, and the race detector must report nothing in go-ucan code."
 # id -> (technique suffix, text suffix): added in later sessions
 EXTRA = {
- "C01": (CHAIN_PURITY_TECH, CHAIN_PURITY_TEXT + " The verdicts of many different chains (conforming and deviating in every rule, some sharing delegations and loaders) are re-computed in other orders and from 16..32 goroutines at once, in the plain and in a -race build, and must not change. Chains of up to 48 links, and history independence: the same invocation token checked with the full loader, a depleted loader and the full loader again. Chains are also decoded inside the judged call (container and invocation read afresh from their bytes), the outcome being the verdict plus the principals the decoded chain names."),
- "C02": (CHAIN_PURITY_TECH, CHAIN_PURITY_TEXT + " Every judged verdict of C01-C05 is preceded, in rotation, by calls that must not matter (a check against a loader failing half-way, the same check again, a check through a misbehaving hook); a second chain built from the very same lower delegations under other upper links is judged on its own. The lattice also holds an empty inner segment and two letters that Unicode case folding identifies; a scale family runs chains of up to 48 links over commands of up to 40 long / non-ASCII segments with zero or one widening link."),
+ "C01": (CHAIN_PURITY_TECH, CHAIN_PURITY_TEXT + " The verdicts of many different chains (conforming and deviating in every rule, some sharing delegations and loaders) are re-computed in other orders and from 16..32 goroutines at once, in the plain and in a -race build, and must not change. Chains of up to 48 links, and history independence: the same invocation token checked with the full loader, a depleted loader and the full loader again. Chains are also decoded inside the judged call (container and invocation read afresh from their bytes), the outcome being the verdict plus the principals the decoded chain names. A proof list may name the very same token twice (same CID)."),
+ "C02": (CHAIN_PURITY_TECH, CHAIN_PURITY_TEXT + " Every judged verdict of C01-C05 is preceded, in rotation, by calls that must not matter (a check against a loader failing half-way, the same check again, a check through a misbehaving hook); a second chain built from the very same lower delegations under other upper links is judged on its own. The lattice also holds an empty inner segment and two letters that Unicode case folding identifies; a scale family runs chains of up to 48 links over commands of up to 40 long / non-ASCII segments with zero or one widening link. A second lattice, exhaustive for n<=2, holds segments that are special elsewhere (*, **, ., .., %2f), mostly through the decoders."),
  "C03": (CHAIN_PURITY_TECH, CHAIN_PURITY_TEXT + " Policies also select relative to the end of a value (negative indexes, open slices) and are handed to the constructors as slices with spare capacity. Policies of up to 130 statements per link, chains of up to 40 links, look-alike twin statements (100 vs 100.0, 5 vs \"5\") of which one is false, heterogeneous quantified lists, and the same delegation objects matched against satisfying / violating / satisfying invocations in turn."),
- "C04": (" + bounds passing while the process runs (checked before and after a silence, bracket rule)", " Part C: tokens whose expiration / not-before lies 2.5 s ahead are checked, the process stays silent until every bound lies more than a second behind, and checks again (ExecutionAllowed at leaf / middle / root / invocation, IsValidNow), a different call coming first after the silence in every cycle and shard; verdicts are decided by two clock readings bracketing each call against the reported bounds with a second of margin, so the sleep only lets time pass. Probes are repeated in other time zones; hand-signed payloads carry every delicate timestamp; chains of up to 40 links; not-before bounds more than 292 years ahead. Part A2: bounds handed to the constructors as instants written in six locations (UTC, +14 h, -11:30, a zone with daylight saving ...) must be reported as that instant, constructed and decoded, and a chain whose link is not yet active by hours is denied whatever location the bound was written in."),
+ "C04": (" + bounds passing while the process runs (checked before and after a silence, bracket rule)", " Part C: tokens whose expiration / not-before lies 2.5 s ahead are checked, the process stays silent until every bound lies more than a second behind, and checks again (ExecutionAllowed at leaf / middle / root / invocation, IsValidNow), a different call coming first after the silence in every cycle and shard; verdicts are decided by two clock readings bracketing each call against the reported bounds with a second of margin, so the sleep only lets time pass. Probes are repeated in other time zones; hand-signed payloads carry every delicate timestamp; chains of up to 40 links; not-before bounds more than 292 years ahead. Part A2: bounds handed to the constructors as instants written in six locations (UTC, +14 h, -11:30, a zone with daylight saving ...) must be reported as that instant, constructed and decoded, and a chain whose link is not yet active by hours is denied whatever location the bound was written in. The chain of length zero: an invocation without proofs (issued by its subject or not, constructed and decoded, plain and through the hook) is never allowed when expired."),
  "C05": (CHAIN_PURITY_TECH, CHAIN_PURITY_TEXT + " Also chains of up to 48 links, deep / long / non-ASCII commands, 130-statement policies, a principal occurring three times, expirations more than 292 years ahead, every chain checked twice and through a second invocation."),
- "C06": (" + concurrent decoding of genuine and forged tokens (plain and -race build, race detector)", " 16..32 goroutines decode genuine tokens and same-length rewrites with the old signature (up to 2 MiB payloads) at once: no forged token may come out and the race detector must stay silent. Envelopes signed over a third entry that the canonical order puts before or after the tag, or over a second payload under the other type's tag, must not come out of any decoder."),
- "C07": (PURITY_TECH, PURITY_TEXT),
- "C08": ("", " CARs naming a block by a foreign-form CID of the same bytes must still file the token under its true CID; CIDs are compared under data-with-EOF, 1-byte and half-read streams. The signature number is re-encoded with its leading zero bytes stripped (RSA tokens whose signature starts with 0x00 are searched for), with a zero prepended and with a zero appended."),
+ "C06": (" + concurrent decoding of genuine and forged tokens (plain and -race build, race detector)", " 16..32 goroutines decode genuine tokens and same-length rewrites with the old signature (up to 2 MiB payloads) at once: no forged token may come out and the race detector must stay silent. Envelopes signed over a third entry that the canonical order puts before or after the tag, or over a second payload under the other type's tag, must not come out of any decoder. The issuer's key bytes under another key type's multicodec, payload re-signed by the issuer under its own header, must not be accepted."),
+ "C07": (PURITY_TECH, " Links (CIDs) occur as metadata, argument and policy values." + PURITY_TEXT),
+ "C08": ("", " CARs naming a block by a foreign-form CID of the same bytes must still file the token under its true CID; CIDs are compared under data-with-EOF, 1-byte and half-read streams. The signature number is re-encoded with its leading zero bytes stripped (RSA tokens whose signature starts with 0x00 are searched for), with a zero prepended and with a zero appended. Containers holding both token types are walked through every accessor (GetAllDelegations, GetAllInvocations, GetToken, GetDelegation): each token comes out under the content address of its sealed bytes."),
  "C09": ("", " Repetition bombs (runs of zero-length CAR sections, millions of empty container entries / CBOR chunks / JSON whitespace / wide policies / selector marks, wide signed args, meta and policies up to 24 MiB) run next to the depth bombs, and small nested-quantifier policies run under the CPU budget. Every quoted selector field name of up to four characters over {quote, backslash, brackets, dot, letter} - closed, unclosed, followed by more - is parsed under the CPU-time watchdog."),
- "C10": ("", " Every field is also retyped to the EMPTY value of every kind (a length test placed before the kind test lets exactly these through). Constructor-made tokens the decoders must refuse (commands assembled with New / Join, policy and argument integers beyond 2^53) are sealed through every writing API of the library and the bytes offered to every decoder twice in the same process: sealing something is no reason to accept it later. New / Join first produce, in a fresh process, the texts the parser must refuse."),
- "C11": (PURITY_TECH, " A numeric grid compares every comparison kind over every ordered pair of 45 delicate integers and floats (around 2^53, 2^62, the ends of int64 and float64)." + " Every policy is also matched in a third form, read from DAG-JSON text with FromDagJson." + PURITY_TEXT),
- "C12": (PURITY_TECH, " A map node whose iterator fails for one call (first or second on that node object) must afterwards select what the model says. One parsed selector is resolved against series of values of different lengths and compared with freshly parsed ones." + PURITY_TEXT),
+ "C10": ("", " delegation.Root is also given a subject option of the caller's choice: the result is about its issuer or an error. Every field is also retyped to the EMPTY value of every kind (a length test placed before the kind test lets exactly these through). Constructor-made tokens the decoders must refuse (commands assembled with New / Join, policy and argument integers beyond 2^53) are sealed through every writing API of the library and the bytes offered to every decoder twice in the same process: sealing something is no reason to accept it later. New / Join first produce, in a fresh process, the texts the parser must refuse."),
+ "C11": (PURITY_TECH, " Look-alike twin statements (integer n and float n, a string and the number it spells) stand side by side at top level and under and / or / not, in both orders. A numeric grid compares every comparison kind over every ordered pair of 45 delicate integers and floats (around 2^53, 2^62, the ends of int64 and float64)." + " Every policy is also matched in a third form, read from DAG-JSON text with FromDagJson." + PURITY_TEXT),
+ "C12": (PURITY_TECH, " A map node whose iterator fails for one call (first or second on that node object) must afterwards select what the model says. One parsed selector is resolved against series of values of different lengths and compared with freshly parsed ones." + " Data holds integers beyond 2^53 as well." + PURITY_TEXT),
  "C13": (PURITY_TECH, " 29 characters that are special in other pattern languages or text handling (line feed, NUL, regular-expression and shell metacharacters) are each swept exhaustively, and subjects beyond 4 KiB are matched against patterns of up to 40 wildcards." + PURITY_TEXT),
- "C14": (PURITY_TECH, PURITY_TEXT),
+ "C14": (PURITY_TECH, " Every selector text the parser rejects is also handed to every policy constructor that takes a selector, alone and nested: Construct must fail." + PURITY_TEXT),
  "C15": (PURITY_TECH, " Every Join / New result (results beyond 64 bytes included) is kept and read again at the very end of the run. All pairs over segments that differ only up to a normalisation (case folding, NFC/NFD, width, percent-encoding) and about 2000 runes on which the readings of 'upper-case' agree." + PURITY_TEXT),
  "C16": (PURITY_TECH, " Degenerate identifiers - whatever the undefined DID prints as among them - are parsed before and after calls that print undefined values; a successful Parse returning the undefined DID is a violation. Fabricated RSA public keys of 10 modulus lengths x 7 public exponents." + PURITY_TEXT),
  "C17": (PURITY_TECH, " Set cardinalities across the framing thresholds (24, 256, 65536 entries) with a corruption planted in the last entry, CAR section sizes swept around every power of two, foreign-form section CIDs." + PURITY_TEXT),
  "C18": (PURITY_TECH, " The stream writers run on slow, yielding sinks from 16..32 goroutines at once: bytes and CID must be those of the buffered call. The stream readers also run on slow, yielding streams from 16..32 goroutines at once (plain and -race build) and must return what they return alone; a fault-free call after a faulted one must write / read what the first fault-free call did. Seven kinds of reader fault (generic, io.ErrUnexpectedEOF, closed pipe, deadline, cancellation, no progress, wrapped errno) incl. a fault after the last byte was delivered, streams interleaving (0, nil) reads, and writers that accept fewer bytes than offered without reporting an error. Tokens whose encoded form is exactly 2^k-1, 2^k and 2^k+1 bytes long (k up to 20, thorough 22) go through every stream API and chunking."),
- "C20": ("", " Every read-only operation is also run as the FIRST operation on a token fresh from the constructors (bounds with a sub-second part, never sealed before), and a fresh token is encoded for the first time while other goroutines read it."),
+ "C20": ("", " Every read-only operation is also run as the FIRST operation on a token fresh from the constructors (bounds with a sub-second part, never sealed before), and a fresh token is encoded for the first time while other goroutines read it. Every token has sibling invocations over the same proofs with other argument values (one accepted, one refused after much matching work), checked next to everything else and in a burst of their own; metadata holds values long enough for a printer to abbreviate."),
  "C19": (PURITY_TECH, " Entropy-source faults, keys derived from the right key by truncation / extension." + PURITY_TEXT),
 }
 
